@@ -53,6 +53,19 @@ def deep_introspection(t):
     return t[:i + 1] + " " + first + t[i + 1:] + " query Deep { __schema %s again: __schema %s }" % (DEEP, DEEP)
 
 
+def frag_on_unknown(t):
+    """a fragment on an unknown (or input) type that uses an operation variable of a type its position does not allow,
+    defined in front of the operation that spreads it"""
+    i = t.find("{")
+    head = t[:i]
+    if "(" in head:
+        head = head.replace("(", "($zz: String, ", 1)
+    else:
+        head = head.rstrip() + "($zz: String) "
+    cond = "Nope" if len(t) % 2 else "In"
+    return f"fragment FU on {cond} {{ f(x: $zz) g(req: $zz) }} " + head + "{ ...FU " + t[i + 1:]
+
+
 def mutate_doc(text, rnd):
     ops = [
         lambda t: re.sub(r"\b(x|y|s|a|b)\b", "nope", t, count=1),                                  # unknown field
@@ -70,6 +83,7 @@ def mutate_doc(text, rnd):
         lambda t: re.sub(r"\b(a|b|s)\b(?! *[:(])", r"\1 { x }", t, count=1),                        # leaf with selection
         share_name, share_name,
         deep_introspection, deep_introspection,
+        frag_on_unknown, frag_on_unknown,
     ]
     for _ in range(rnd.choice([1, 1, 2])):
         t2 = rnd.choice(ops)(text)
